@@ -92,34 +92,49 @@ def check_membership(ctx, R="C03.member"):
     # union
     fn = model.func(RG, "UnionRegion.genericSampler")
     p0 = fn.args.args[0].arg
-    env = {n.targets[0].id: n.value for n in walk_local(fn) if isinstance(n, ast.Assign) and len(n.targets) == 1 and isinstance(n.targets[0], ast.Name)}
-    cnt = None
-    for name, v in env.items():
-        if isinstance(v, ast.Call) and dotted(v.func) == "sum" and v.args and isinstance(v.args[0], ast.GeneratorExp):
-            g = v.args[0]
-            gen = g.generators[0]
-            src = env.get(gen.iter.id, gen.iter) if isinstance(gen.iter, ast.Name) else gen.iter
-            if "_trueContainsPoint" in unparse(g.elt) and unparse(src) == f"{p0}.regions" and not gen.ifs:
-                cnt = name
     rej = None
     for n in walk_local(fn):
         if isinstance(n, ast.If) and any(isinstance(x, ast.Raise) for x in n.body) and "random.random()" in unparse(n.test):
             rej = n
-    if cnt and rej is not None:
+
+    def is_count(e):
+        """e is sum(<membership of the point in reg> for reg in <all operands>) -- locals already inlined"""
+        if not (isinstance(e, ast.Call) and dotted(e.func) == "sum" and e.args and isinstance(e.args[0], ast.GeneratorExp)):
+            return False
+        g = e.args[0]
+        gen = g.generators[0]
+        return len(g.generators) == 1 and "_trueContainsPoint" in unparse(g.elt) and unparse(gen.iter) == f"{p0}.regions" and not gen.ifs
+
+    if rej is not None:
         t = rej.test
         okp = False
+        cnt_txt = "count"
         if isinstance(t, ast.Compare) and len(t.ops) == 1:
             l, op, r = t.left, t.ops[0], t.comparators[0]
+            bound = None
             if unparse(l) == "random.random()" and isinstance(op, (ast.Lt, ast.LtE)):
-                okp = equal(lin(r), lin_src(f"1 - 1 / {cnt}"))
+                bound = r
             elif unparse(r) == "random.random()" and isinstance(op, (ast.Gt, ast.GtE)):
-                okp = equal(lin(l), lin_src(f"1 - 1 / {cnt}"))
-            elif unparse(l) == "random.random()" and isinstance(op, (ast.Gt, ast.GtE)):
-                okp = False
+                bound = l
+            if bound is not None:
+                # the bound with its locals inlined must be 1 - 1/k, k the containment count over all operands
+                be = ast.parse(lib.role_text(fn, bound), mode="eval").body
+                counts = [c for c in ast.walk(be) if is_count(c)]
+                if counts:
+                    cnt_txt = unparse(counts[0])
+                    k = unparse(counts[0])
+
+                    class K(ast.NodeTransformer):
+                        def visit_Call(self, n):
+                            if unparse(n) == k:
+                                return ast.Name(id="_k_", ctx=ast.Load())
+                            return self.generic_visit(n)
+
+                    okp = equal(lin(K().visit(be)), lin_src("1 - 1 / _k_"))
         if okp:
             ctx.ok(R, rej, f"union sampler: a point lying in k operands is kept with probability 1/k (k counted over all of `{p0}.regions`)")
         else:
-            ctx.finding(R, rej, "union multiplicity correction", f"UnionRegion.genericSampler rejects under `{unparse(t)}`, not with probability 1 - 1/{cnt}: overlaps are over-sampled")
+            ctx.finding(R, rej, "union multiplicity correction", f"UnionRegion.genericSampler rejects under `{unparse(t)}`, not with probability 1 - 1/k for k the number of operands (all of `{p0}.regions`) containing the point: overlaps are over-sampled")
     else:
         ctx.finding(R, fn, "union multiplicity correction", "UnionRegion.genericSampler lacks the containment count over all operands or the 1 - 1/count rejection: points in overlaps are over-sampled")
     # the samplers are what uniformPointInner uses
